@@ -7,6 +7,7 @@ call-back sequence).  Specification: `Tough/Spec/CJson.lean` (`canon`).
 -/
 import Tough.Proofs.CJsonCanon
 import Tough.Proofs.CJsonSort
+import Tough.Proofs.CJsonInj
 import Tough.Proofs.ExceptDec
 namespace Tough.C11
 open Tough.CJson
@@ -201,5 +202,51 @@ example : NfcOk id := nfcOk_id
 example : validJ witnessObj = true := by decide
 example : (membersList (.cons [0x61] (.int 1) (.cons [0x62] (.int 2) .nil))).Perm
     (membersList (.cons [0x62] (.int 2) (.cons [0x61] (.int 1) .nil))) := List.Perm.swap _ _ _
+
+/-! ### Only of it: the bytes determine the value -/
+
+/-- **C11.e (injectivity, full statement).** If the formatter produces the same bytes for two values,
+the two values have the same normal form `nrm`: they differ at most in string / key normalisation, in
+the order in which members were inserted, and in members that a later member with the same key
+replaced.  No bound on depth, width or string length.  (`nrm` normalises every string and key with
+`normStr`, orders the members of every object by key and keeps the last of several members with one
+key; nothing else.) -/
+theorem encode_injective {nfc : Str → Str} (hn : NfcOk nfc) (v w : JVal) (hv : validJ v = true) (hw : validJ w = true)
+    (b : Bytes) (h1 : encode nfc v = .ok b) (h2 : encode nfc w = .ok b) : nrm nfc v = nrm nfc w := by
+  rw [encode_canonical hn v hv] at h1
+  rw [encode_canonical hn w hw] at h2
+  cases hc1 : canon nfc v with
+  | none => simp [hc1] at h1
+  | some b1 =>
+    cases hc2 : canon nfc w with
+    | none => simp [hc2] at h2
+    | some b2 =>
+      simp only [hc1, Except.ok.injEq] at h1
+      simp only [hc2, Except.ok.injEq] at h2
+      subst h1; subst h2
+      exact canon_injective hn v w hv hw _ hc1 hc2
+
+/-- conversely, values with the same normal form are serialised to the same bytes -/
+theorem encode_respects_nrm {nfc : Str → Str} (hn : NfcOk nfc) (v w : JVal) (hv : validJ v = true) (hw : validJ w = true)
+    (b c : Bytes) (h1 : encode nfc v = .ok b) (h2 : encode nfc w = .ok c) (h : nrm nfc v = nrm nfc w) : b = c := by
+  rw [encode_canonical hn v hv] at h1
+  rw [encode_canonical hn w hw] at h2
+  cases hc1 : canon nfc v with
+  | none => simp [hc1] at h1
+  | some b1 =>
+    cases hc2 : canon nfc w with
+    | none => simp [hc2] at h2
+    | some b2 =>
+      simp only [hc1, Except.ok.injEq] at h1
+      simp only [hc2, Except.ok.injEq] at h2
+      subst h1; subst h2
+      exact canon_eq_of_nrm_eq nfc v w _ _ hc1 hc2 h
+
+/-- the normal form keeps what distinguishes values: a changed number and an added member change it,
+the insertion order does not (evaluated on small values, through the rendering, which is injective) -/
+example : render (nrm id (.obj (.cons [97] (.int 1) .nil))) ≠ render (nrm id (.obj (.cons [97] (.int 2) .nil))) ∧
+    render (nrm id (.obj (.cons [97] (.int 1) .nil))) ≠ render (nrm id (.obj (.cons [97] (.int 1) (.cons [98] .null .nil)))) ∧
+    render (nrm id (.obj (.cons [98] .null (.cons [97] (.int 1) .nil)))) = render (nrm id (.obj (.cons [97] (.int 1) (.cons [98] .null .nil)))) := by
+  decide
 
 end Tough.C11
